@@ -920,10 +920,12 @@ class Interp:
             return [self.apply(args[0], [x]) for x in self.seq(args[1])]
         if isinstance(fn, ast.Name) and fn.id == 'enumerate' and len(args) == 1:
             return [(i, v) for i, v in enumerate(self.seq(args[0]))]
-        if isinstance(fn, ast.Attribute) and fn.attr in ('append', 'remove', 'insert', 'index', 'pop', 'extend', 'clear', 'format'):
+        if isinstance(fn, ast.Attribute) and fn.attr in ('append', 'remove', 'insert', 'index', 'pop', 'extend', 'clear', 'format', 'count'):
             base = self.ev(fn.value, env, cls)
             if h.is_list(base):
                 items = h.items(base)
+                if fn.attr == 'count' and len(args) == 1:
+                    return len([x for x in items if self.same_value(x, args[0])])
                 if fn.attr == 'append':
                     h.touch(base.name)
                     items.append(args[0])
@@ -1040,6 +1042,12 @@ class Interp:
                 self.call(Closure(fn.node, {}, ref, fn.cls), [h.fld(attr, cls), value])
                 return
         h.setattr(ref, attr, value, cls)
+
+    def same_value(self, a, b):
+        """== of two model values where it is decided without forking (constants, references by identity, equal symbolic texts)"""
+        if isinstance(a, SStr) or isinstance(b, SStr):
+            return symstr.lift(a).same(symstr.lift(b)) if isinstance(a, (str, SStr)) and isinstance(b, (str, SStr)) else False
+        return a == b
 
     def call_value(self, f, args, e):
         """call an evaluated callable (default factories): the builtin container types and closures"""
